@@ -147,6 +147,26 @@ class SignalSetup(Contract):
                     while r.get('kind') in ('ParenExpr', 'ImplicitCastExpr'):
                         r = r['inner'][0]
                     stores.append((line_of(n), n.get('opcode') == '=' and r.get('kind') == 'CXXBoolLiteralExpr' and r.get('value') is True))
+                if n.get('kind') == 'CXXOperatorCallExpr' and len(n.get('inner', [])) == 3 and \
+                        any((y.get('referencedDecl') or {}).get('name') in ('operator=', 'operator|=', 'operator&=', 'operator^=') for y in _walk(n['inner'][0])):
+                    # the flag as a class type (std::atomic<bool>): assignment through operator=
+                    lhs = n['inner'][1]
+                    while lhs.get('kind') in ('ParenExpr', 'ImplicitCastExpr'):
+                        lhs = lhs['inner'][0]
+                    nm = lhs.get('name') if lhs.get('kind') == 'MemberExpr' else (lhs.get('referencedDecl') or {}).get('name')
+                    if nm == 'abort':
+                        r = n['inner'][2]
+                        while r.get('kind') in ('ParenExpr', 'ImplicitCastExpr'):
+                            r = r['inner'][0]
+                        isassign = any((y.get('referencedDecl') or {}).get('name') == 'operator=' for y in _walk(n['inner'][0]))
+                        stores.append((line_of(n), isassign and r.get('kind') == 'CXXBoolLiteralExpr' and r.get('value') is True))
+                if n.get('kind') == 'CXXMemberCallExpr' and any(x.get('kind') == 'MemberExpr' and x.get('name') in ('store', 'exchange', 'compare_exchange_strong', 'compare_exchange_weak', 'fetch_and', 'fetch_xor') for x in n['inner'][:1]) \
+                        and any((x.get('referencedDecl') or {}).get('name') == 'abort' or x.get('name') == 'abort' for x in _walk(n['inner'][0])):
+                    a0 = n['inner'][1] if len(n['inner']) > 1 else {}
+                    while a0.get('kind') in ('ParenExpr', 'ImplicitCastExpr'):
+                        a0 = a0['inner'][0]
+                    mname = [x.get('name') for x in n['inner'][:1] if x.get('kind') == 'MemberExpr'][0]
+                    stores.append((line_of(n), mname in ('store', 'exchange') and a0.get('kind') == 'CXXBoolLiteralExpr' and a0.get('value') is True))
                 if n.get('kind') == 'UnaryOperator' and n.get('opcode') in ('++', '--') and any((x.get('referencedDecl') or {}).get('name') == 'abort' or x.get('name') == 'abort' for x in _walk(n)):
                     stores.append((line_of(n), False))
         ob('request_never_cleared', all(ok_ for _, ok_ in stores), f'every store into Display::abort in main writes the constant true (stores at lines {[l for l, _ in stores]}, not constant-true: {[l for l, k_ in stores if not k_]})')
